@@ -1030,12 +1030,37 @@ struct Exec {
         auto cr = [](const canon::IPt& a, const canon::IPt& b, const canon::IPt& c) {
             return (__int128)(b.x - a.x) * (c.y - a.y) - (__int128)(b.y - a.y) * (c.x - a.x);
         };
+        // a vertex that occurs twice closes a loop on itself (what the loop encloses is counted once or twice
+        // depending on the fill rule) - unless it is an end of a seam, an edge that is walked in both directions
+        {
+            std::set<std::pair<int64_t, int64_t>> seam_ends;
+            std::map<std::pair<std::pair<int64_t, int64_t>, std::pair<int64_t, int64_t>>, int> edges;
+            for (size_t i = 0; i < n; i++) edges[{{p[i].x, p[i].y}, {p[(i + 1) % n].x, p[(i + 1) % n].y}}]++;
+            for (auto& e : edges)
+                if (edges.count({e.first.second, e.first.first})) {
+                    seam_ends.insert(e.first.first);
+                    seam_ends.insert(e.first.second);
+                }
+            std::map<std::pair<int64_t, int64_t>, int> seen;
+            for (size_t i = 0; i < n; i++)
+                if (++seen[{p[i].x, p[i].y}] > 1 && !seam_ends.count({p[i].x, p[i].y})) return true;
+        }
         for (size_t i = 0; i < n; i++)
             for (size_t j = i + 2; j < n; j++) {
                 if (i == 0 && j == n - 1) continue;
                 const canon::IPt &a = p[i], &b = p[(i + 1) % n], &c = p[j], &d = p[(j + 1) % n];
                 __int128 d1 = cr(c, d, a), d2 = cr(c, d, b), d3 = cr(a, b, c), d4 = cr(a, b, d);
                 if (((d1 > 0 && d2 < 0) || (d1 < 0 && d2 > 0)) && ((d3 > 0 && d4 < 0) || (d3 < 0 && d4 > 0))) return true;
+                // touching counts too (on the grid a crossing often degenerates into a vertex on an edge), except
+                // where two edges merely share an end point or are the two directions of a seam (rings)
+                auto same = [](const canon::IPt& u, const canon::IPt& v) { return u.x == v.x && u.y == v.y; };
+                if ((same(a, d) && same(b, c)) || (same(a, c) && same(b, d))) continue;
+                auto inside = [&](const canon::IPt& u, const canon::IPt& v, const canon::IPt& w, __int128 dd) {
+                    // w strictly inside segment u-v (collinear and between, not an end point)
+                    if (dd != 0 || same(w, u) || same(w, v)) return false;
+                    return std::min(u.x, v.x) <= w.x && w.x <= std::max(u.x, v.x) && std::min(u.y, v.y) <= w.y && w.y <= std::max(u.y, v.y);
+                };
+                if (inside(c, d, a, d1) || inside(c, d, b, d2) || inside(a, b, c, d3) || inside(a, b, d, d4)) return true;
             }
         return false;
     }
